@@ -143,7 +143,7 @@ def correspond(ctx):
 
     # (a) the four traversals on random trees ----------------------------------------------------------------
     cases, meta = [], []
-    for _ in range(ctx.scale(300, 3500) * wide):
+    for _ in range(ctx.scale(450, 3500) * wide):
         t = ('T', rng.choice(RULE_POOL), tuple(random_tree(rng, 1) for _ in range(rng.choice([0, 1, 2, 3, 4]))))
         rules = [n for n in RULE_POOL if n != '_x' and rng.random() < 0.55]
         toks = [k for k in TOK_POOL if rng.random() < 0.5]
@@ -216,7 +216,7 @@ def correspond(ctx):
     from lark import Lark
     from lark.exceptions import LarkError
     cases, meta = [], []
-    ngram = ctx.scale(45, 600) * wide
+    ngram = ctx.scale(70, 600) * wide
     done = tried = 0
     while done < ngram and tried < 4 * ngram:
         tried += 1
